@@ -276,6 +276,9 @@ pub struct RunSpec {
     pub may_forget: bool,
     /// run inside tokio's cooperative budget
     pub coop: bool,
+    /// stream consumer: FnRef `id` is dropped by the unwinding of a (caught) panic in
+    /// user code iff bit `id % 8` is set
+    pub unwind_drop_mask: u8,
 }
 
 #[derive(Clone, Copy, Debug, PartialEq, Eq)]
@@ -531,6 +534,7 @@ impl RunSpec {
             "may_abort": self.may_abort,
             "may_forget": self.may_forget,
             "coop": self.coop,
+            "unwind_drop_mask": self.unwind_drop_mask,
         })
     }
     pub fn from_json(v: &Value) -> Option<Self> {
@@ -554,6 +558,7 @@ impl RunSpec {
             may_abort: v.get("may_abort")?.as_bool()?,
             may_forget: v.get("may_forget")?.as_bool()?,
             coop: v.get("coop").and_then(|c| c.as_bool()).unwrap_or(false),
+            unwind_drop_mask: v.get("unwind_drop_mask").and_then(|c| c.as_u64()).unwrap_or(0) as u8,
         })
     }
 }
